@@ -31,9 +31,12 @@ pub mod verif {
     use tokio::sync::RwLock;
 
     /// work handed to the reorg task / the block assembler task, and work they have finished:
-    /// `(reorgs_sent, reorgs_done, assembler_sent, assembler_done, uncles_sent, uncles_done)`.
+    /// `(reorgs_sent, reorgs_done, assembler_sent, assembler_done, uncles_sent, uncles_done,
+    /// verify_queue_entered, verify_queue_left_or_processed)`.
     /// The pool's background tasks are idle when the pairs agree.
-    pub(crate) static WORK: [std::sync::atomic::AtomicU64; 6] = [
+    pub(crate) static WORK: [std::sync::atomic::AtomicU64; 8] = [
+        std::sync::atomic::AtomicU64::new(0),
+        std::sync::atomic::AtomicU64::new(0),
         std::sync::atomic::AtomicU64::new(0),
         std::sync::atomic::AtomicU64::new(0),
         std::sync::atomic::AtomicU64::new(0),
@@ -46,13 +49,17 @@ pub mod verif {
         WORK[i].fetch_add(1, std::sync::atomic::Ordering::SeqCst);
     }
 
-    /// true when every reorg notification, new-uncle notification and block assembler message sent so far (by any
+    /// transactions a replacement has set free and that are on their way back into the verify
+    /// queue (announced before the task that queues them is spawned)
+    pub(crate) static RECOVERING: std::sync::atomic::AtomicU64 = std::sync::atomic::AtomicU64::new(0);
+
+    /// true when every reorg notification, new-uncle notification, block assembler message and verify-queue entry sent so far (by any
     /// pool service of this process) has been fully processed
     pub fn background_idle() -> bool {
         use std::sync::atomic::Ordering::SeqCst;
-        let done = (WORK[1].load(SeqCst), WORK[3].load(SeqCst), WORK[5].load(SeqCst));
-        let sent = (WORK[0].load(SeqCst), WORK[2].load(SeqCst), WORK[4].load(SeqCst));
-        sent == done
+        let done = (WORK[1].load(SeqCst), WORK[3].load(SeqCst), WORK[5].load(SeqCst), WORK[7].load(SeqCst));
+        let sent = (WORK[0].load(SeqCst), WORK[2].load(SeqCst), WORK[4].load(SeqCst), WORK[6].load(SeqCst));
+        RECOVERING.load(SeqCst) == 0 && sent == done
     }
 
     type Gate = Box<dyn FnMut(&str) + Send>;
